@@ -31,6 +31,7 @@ import (
 	"strconv"
 	"strings"
 	"sync"
+	"time"
 
 	"github.com/whatap/golib/util/hll"
 	"verif/harness/vh"
@@ -209,14 +210,28 @@ type run struct {
 	bytes []byte
 	bools string
 	card  uint64
-	out   vh.Outcome
+	out   res
+	stage string // where a panic / hang occurred: "offer" | "GetBytes" | "Cardinality"
 }
 
+func itemsReplay(p uint32, items []item) func() map[string]interface{} {
+	return func() map[string]interface{} {
+		n := len(items)
+		if n > 200000 {
+			n = 200000
+		}
+		return map[string]interface{}{"p": p, "n": len(items), "items": itemStrings(items[:n])}
+	}
+}
+
+// build: a fresh counter of precision p, the items offered in order, GetBytes(), Cardinality().
 func build(p uint32, items []item) run {
 	var r run
 	var sb strings.Builder
-	r.out = vh.Guard(func() {
+	r.stage = "new"
+	r.out = impl("build", itemsReplay(p, items), func() {
 		r.h = hll.NewHyperLogLogInt(p)
+		r.stage = "offer"
 		for _, it := range items {
 			if offer(r.h, it) {
 				sb.WriteByte('1')
@@ -224,8 +239,11 @@ func build(p uint32, items []item) run {
 				sb.WriteByte('0')
 			}
 		}
+		r.stage = "GetBytes"
 		r.bytes = r.h.GetBytes()
+		r.stage = "Cardinality"
 		r.card = r.h.Cardinality()
+		r.stage = ""
 	})
 	r.bools = sb.String()
 	if r.bools == "" {
@@ -234,8 +252,66 @@ func build(p uint32, items []item) run {
 	return r
 }
 
-func bytesOf(h *hll.HyperLogLog) (b []byte, o vh.Outcome) {
-	o = vh.Guard(func() { b = h.GetBytes() })
+// buildFailure reports a build that panicked or does not return, with the smallest exhibit found:
+// one item on a fresh counter, else the shortest failing prefix.
+func buildFailure(c *caseT, b run, fail failFn) {
+	if b.out.Skipped {
+		return
+	}
+	if b.out.Timeout {
+		m := replayOf(c, map[string]interface{}{"step": "fresh counter, offer the items, GetBytes(), Cardinality(): blocked in " + b.stage, "goroutine": b.out.Where})
+		fail("property", blocksKey(b.out), "a call on a counter that saw these items does not return ("+b.stage+")", m)
+		return
+	}
+	key := b.stage + ":panic"
+	if b.stage == "offer" || b.stage == "new" {
+		key = "offer:panic"
+	}
+	gmu.Lock()
+	nLocalised[key]++
+	enough := nLocalised[key] > 3
+	gmu.Unlock()
+	if enough { // three localised exhibits per key are kept; the search for more is not worth its time
+		fail("property", key, "panic in "+b.stage+": "+vh.Clip(b.out.Panic, 200), replayOf(c, map[string]interface{}{"step": b.stage}))
+		return
+	}
+	what := map[string]string{"offer": "offering items", "new": "creating the counter", "GetBytes": "GetBytes() after offering these items", "Cardinality": "Cardinality() after offering these items"}[b.stage]
+	still := func(items []item) bool {
+		x := build(c.p, items)
+		return !x.out.Skipped && !x.out.Timeout && x.out.Panic != "" && x.stage == b.stage
+	}
+	for i, it := range c.items {
+		if i >= 4096 {
+			break
+		}
+		if still([]item{it}) {
+			fail("property", key, what+" panicked (a single item on a fresh counter): "+vh.Clip(b.out.Panic, 200),
+				replayOf(&caseT{p: c.p, items: []item{it}, mode: c.mode}, map[string]interface{}{"hash": hashOf(it), "step": b.stage}))
+			return
+		}
+	}
+	lo, hi := 0, len(c.items) // shortest failing prefix (the failure is monotone for a state-dependent panic)
+	for lo < hi {
+		mid := (lo + hi) / 2
+		if still(c.items[:mid+1]) {
+			hi = mid
+		} else {
+			lo = mid + 1
+		}
+	}
+	n := lo + 1
+	if n > len(c.items) {
+		n = len(c.items)
+	}
+	fail("property", key, what+" panicked: "+vh.Clip(b.out.Panic, 200), replayOf(&caseT{p: c.p, items: c.items[:n], mode: c.mode}, map[string]interface{}{"step": b.stage}))
+}
+
+var nLocalised = map[string]int{}
+
+type failFn = func(kind, key, summary string, replay interface{})
+
+func bytesOf(h *hll.HyperLogLog) (b []byte, o res) {
+	o = impl("GetBytes", nil, func() { b = h.GetBytes() })
 	return
 }
 
@@ -348,12 +424,32 @@ func main() {
 
 	var pend []pending
 	var mu sync.Mutex
-	add := func(p pending) { mu.Lock(); pend = append(pend, p); mu.Unlock() }
-	fail := func(kind, key, summary string, replay interface{}) {
+	closed := false // set when the driver phase starts: a goroutine given up by the watchdog must not write any more
+	add := func(p pending) {
 		mu.Lock()
-		rep.Fail(kind, key, summary, replay)
+		if !closed {
+			pend = append(pend, p)
+		}
 		mu.Unlock()
 	}
+	fail := func(kind, key, summary string, replay interface{}) {
+		mu.Lock()
+		if !closed {
+			rep.Fail(kind, key, summary, replay)
+		}
+		mu.Unlock()
+	}
+	// the report is always written: at 5/6 of the check script's timeout an emergency report is written
+	budget := 1500 * time.Second
+	if env.Thorough {
+		budget = 6000 * time.Second
+	}
+	supervise(env, budget, func() ([]vh.Failure, int, string) {
+		mu.Lock()
+		defer mu.Unlock()
+		closed = true
+		return append([]vh.Failure(nil), rep.Failures...), rep.Evaluations, rep.Rule
+	})
 
 	// ---- 0. the inverse of MurmurHash on 32-bit items (harness tool, not a verdict)
 	invOK := true
@@ -467,6 +563,7 @@ func main() {
 		largeCardinalities(env, rep, rng, add, fail)
 		historySection(env, rep, rng, add, fail)
 		hashSection(env, rep, rng, add, fail)
+		apiSection(env, rep, rng, add, fail)
 		d30Witness(rep, invOK, fail)
 		if invOK {
 			linearSweep(env, rep, add, fail)
@@ -474,6 +571,10 @@ func main() {
 	}
 
 	// ---- 5. ask the model
+	mu.Lock()
+	closed = true
+	mu.Unlock()
+	guardNotes(rep)
 	sort.SliceStable(pend, func(i, j int) bool { return pend[i].line < pend[j].line })
 	lines := make([]string, len(pend))
 	for i, p := range pend {
@@ -783,6 +884,26 @@ func genCases(env *vh.Env, rng *vh.Rng, invOK bool) []*caseT {
 				c4.items = append(c4.items, crafted(uint32(reg)<<w|1<<(w-1)))
 			}
 			cases = append(cases, c4)
+			// the top of the register range: rank 33-p (the hash tail after the index bits is all zero).
+			// Item 0 has hash 0 through both entry points; other registers by chosen hashes.  Tiny sets
+			// (the estimate must be exact) and every register at the top value.
+			cases = append(cases, &caseT{p: p, mode: "top-rank", items: []item{{false, 0}}})
+			cases = append(cases, &caseT{p: p, mode: "top-rank", items: []item{{true, 0}, {false, 0}}})
+			c5 := &caseT{p: p, mode: "top-rank", items: []item{{true, 0}}}
+			for k := 0; k < 1+rng.Intn(3); k++ {
+				c5.items = append(c5.items, crafted(uint32(rng.Intn(m))<<w))
+			}
+			if rng.Bool() {
+				c5.items = append(c5.items, item{true, rng.U64()})
+			}
+			cases = append(cases, c5)
+			c6 := &caseT{p: p, mode: "top-rank-all"}
+			for reg := 0; reg < m; reg++ {
+				c6.items = append(c6.items, crafted(uint32(reg)<<w))
+			}
+			cases = append(cases, c6)
+		} else {
+			cases = append(cases, &caseT{p: p, mode: "top-rank", items: []item{{false, 0}}}, &caseT{p: p, mode: "top-rank", items: []item{{true, 0}}})
 		}
 	}
 	return cases
@@ -813,12 +934,60 @@ func replayOf(c *caseT, extra map[string]interface{}) map[string]interface{} {
 	return m
 }
 
-func checkCase(c *caseT, r *vh.Rng, add func(pending), fail func(kind, key, summary string, replay interface{})) {
+func checkCase(c *caseT, r *vh.Rng, add func(pending), fail failFn) {
 	p := c.p
 	base := build(p, c.items)
 	if !base.out.OK() {
-		fail("property", "offer:panic", "offering items panicked: "+vh.Clip(base.out.Panic, 200), replayOf(c, nil))
+		buildFailure(c, base, fail)
 		return
+	}
+	// step runs one block of implementation calls of this case under the watchdog.  A panic is
+	// reported under panicKey ("" = the block reports for itself), a call that does not return under
+	// "<Type.Method>:blocks" with the case and the step as replay; after a hang the case is abandoned
+	// (its counters may be locked for ever).  false = the block did not complete.
+	abandoned := false
+	step := func(label, panicKey, what string, rp func() map[string]interface{}, f func()) bool {
+		if abandoned {
+			return false
+		}
+		o := impl(label, rp, f)
+		switch {
+		case o.Skipped:
+			return false
+		case o.Timeout:
+			if firstHangReport(label) {
+				m := rp()
+				m["step"] = what
+				m["goroutine"] = o.Where
+				fail("property", blocksKey(o), what+" does not return", m)
+			}
+			abandoned = true
+			return false
+		case o.Panic != "":
+			if panicKey != "" {
+				m := rp()
+				m["step"] = what
+				fail("property", panicKey, what+" panicked: "+vh.Clip(o.Panic, 200), m)
+			}
+			return false
+		}
+		return true
+	}
+	rpc := func() map[string]interface{} { return replayOf(c, nil) }
+	// a build inside the case: failures are localised and reported
+	sub := func(items []item) (run, bool) {
+		if abandoned {
+			return run{}, false
+		}
+		b := build(p, items)
+		if !b.out.OK() {
+			buildFailure(&caseT{p: p, items: items, mode: c.mode}, b, fail)
+			if b.out.Timeout {
+				abandoned = true
+			}
+			return b, false
+		}
+		return b, true
 	}
 	// model
 	add(pending{line: fmt.Sprintf("OFF %d %s", p, hashList(c.items)),
@@ -864,12 +1033,13 @@ func checkCase(c *caseT, r *vh.Rng, add func(pending), fail func(kind, key, summ
 
 	// order
 	if len(c.items) > 1 {
-		sh := build(p, shuffled(r, c.items))
-		if !sh.out.OK() || !bytes.Equal(sh.bytes, base.bytes) {
-			fail("property", "order:bytes-differ", "a permutation of the same items gives different bytes", replayOf(c, nil))
-		}
-		if sh.card != base.card {
-			fail("property", "order:estimate-differs", "a permutation of the same items gives a different estimate", replayOf(c, nil))
+		if sh, ok := sub(shuffled(r, c.items)); ok {
+			if !bytes.Equal(sh.bytes, base.bytes) {
+				fail("property", "order:bytes-differ", "a permutation of the same items gives different bytes", replayOf(c, nil))
+			}
+			if sh.card != base.card {
+				fail("property", "order:estimate-differs", "a permutation of the same items gives a different estimate", replayOf(c, nil))
+			}
 		}
 	}
 	// duplicates: every item again (immediately, and the whole sequence again)
@@ -882,12 +1052,11 @@ func checkCase(c *caseT, r *vh.Rng, add func(pending), fail func(kind, key, summ
 			}
 		}
 		dup = append(dup, shuffled(r, c.items)...)
-		d := build(p, dup)
-		if !d.out.OK() || !bytes.Equal(d.bytes, base.bytes) {
+		if d, ok := sub(dup); ok && !bytes.Equal(d.bytes, base.bytes) {
 			fail("property", "duplicates:bytes-differ", "offering items again changes the bytes", replayOf(c, nil))
 		}
 		// an item offered twice in a row: the second Offer reports "unchanged"
-		o := vh.Guard(func() {
+		step("offer-twice", "offer:panic", "offering every item twice in a row", rpc, func() {
 			h := hll.NewHyperLogLogInt(p)
 			for i, it := range c.items {
 				if i >= 64 {
@@ -901,7 +1070,9 @@ func checkCase(c *caseT, r *vh.Rng, add func(pending), fail func(kind, key, summ
 				}
 			}
 		})
-		_ = o
+	}
+	if abandoned {
+		return
 	}
 
 	// merge of a random split (parts may overlap, some may be empty)
@@ -923,22 +1094,6 @@ func checkCase(c *caseT, r *vh.Rng, add func(pending), fail func(kind, key, summ
 		for _, pt := range parts {
 			total = append(total, pt...)
 		}
-		single := build(p, total)
-		hs := make([]*hll.HyperLogLog, k)
-		before := make([][]byte, k)
-		for j := range parts {
-			b := build(p, parts[j])
-			hs[j] = b.h
-			before[j] = b.bytes
-		}
-		var merged *hll.HyperLogLog
-		var mb []byte
-		var mcard uint64
-		o := vh.Guard(func() {
-			merged = hs[0].Merge(hs[1:]...)
-			mb = merged.GetBytes()
-			mcard = merged.Cardinality()
-		})
 		rp := func() map[string]interface{} {
 			ps := make([]interface{}, k)
 			for j := range parts {
@@ -950,23 +1105,44 @@ func checkCase(c *caseT, r *vh.Rng, add func(pending), fail func(kind, key, summ
 			}
 			return replayOf(c, map[string]interface{}{"parts": ps})
 		}
-		if !o.OK() {
-			fail("property", "merge:panic", "merging counters of equal precision panicked: "+vh.Clip(o.Panic, 200), rp())
-		} else {
+		single, okS := sub(total)
+		hs := make([]*hll.HyperLogLog, k)
+		before := make([][]byte, k)
+		okParts := okS
+		for j := range parts {
+			b, ok := sub(parts[j])
+			if !ok {
+				okParts = false
+				break
+			}
+			hs[j] = b.h
+			before[j] = b.bytes
+		}
+		var merged *hll.HyperLogLog
+		var mb []byte
+		var mcard uint64
+		okM := okParts && step("merge", "merge:panic", "a.Merge(b, …) of counters of equal precision, GetBytes(), Cardinality()", rp, func() {
+			merged = hs[0].Merge(hs[1:]...)
+			mb = merged.GetBytes()
+			mcard = merged.Cardinality()
+		})
+		if okM {
 			if !bytes.Equal(mb, single.bytes) {
 				fail("property", "merge:not-union", "merge of the parts differs from the counter that saw the union", rp())
 			}
 			if mcard != single.card {
 				fail("property", "merge:estimate-differs", "estimate of the merge differs from the estimate of the union counter", rp())
 			}
-			for j := range hs {
-				if b, _ := bytesOf(hs[j]); !bytes.Equal(b, before[j]) {
-					fail("property", "merge:input-modified", fmt.Sprintf("Merge changed its input #%d", j), rp())
-					break
+			step("merge:inputs", "merge:panic", "GetBytes() of the inputs after Merge", rp, func() {
+				for j := range hs {
+					if !bytes.Equal(hs[j].GetBytes(), before[j]) {
+						fail("property", "merge:input-modified", fmt.Sprintf("Merge changed its input #%d", j), rp())
+						break
+					}
 				}
-			}
+			})
 			// commutative
-			vh.Guard(func() {
+			step("merge:reverse", "merge:panic", "merging in reverse order", rp, func() {
 				rev := make([]*hll.HyperLogLog, k)
 				for j := range hs {
 					rev[j] = hs[k-1-j]
@@ -977,7 +1153,7 @@ func checkCase(c *caseT, r *vh.Rng, add func(pending), fail func(kind, key, summ
 			})
 			// associative
 			if k >= 3 {
-				vh.Guard(func() {
+				step("merge:assoc", "merge:panic", "(a∪b)∪c and a∪(b∪c)", rp, func() {
 					l := hs[0].Merge(hs[1]).Merge(hs[2]).GetBytes()
 					rr := hs[0].Merge(hs[1].Merge(hs[2])).GetBytes()
 					if !bytes.Equal(l, rr) {
@@ -986,7 +1162,7 @@ func checkCase(c *caseT, r *vh.Rng, add func(pending), fail func(kind, key, summ
 				})
 			}
 			// idempotent
-			vh.Guard(func() {
+			step("merge:self", "merge:panic", "a.Merge(a) and a.Merge()", rp, func() {
 				if b := hs[0].Merge(hs[0]).GetBytes(); !bytes.Equal(b, before[0]) {
 					fail("property", "merge:not-idempotent", "a∪a differs from a", rp())
 				}
@@ -995,36 +1171,72 @@ func checkCase(c *caseT, r *vh.Rng, add func(pending), fail func(kind, key, summ
 				}
 			})
 			// AddAll: in-place union, argument untouched
-			vh.Guard(func() {
-				a := build(p, parts[0]).h
-				for j := 1; j < k; j++ {
-					a.AddAll(hs[j])
-				}
-				if b := a.GetBytes(); !bytes.Equal(b, mb) {
-					fail("property", "merge:addall-not-union", "AddAll differs from Merge", rp())
-				}
-				for j := 1; j < k; j++ {
-					if b, _ := bytesOf(hs[j]); !bytes.Equal(b, before[j]) {
-						fail("property", "merge:input-modified", fmt.Sprintf("AddAll changed its argument #%d", j), rp())
-						break
+			if a, ok := sub(parts[0]); ok {
+				step("addall", "merge:panic", "a.AddAll(b) for every other part", rp, func() {
+					for j := 1; j < k; j++ {
+						a.h.AddAll(hs[j])
 					}
+					if b := a.h.GetBytes(); !bytes.Equal(b, mb) {
+						fail("property", "merge:addall-not-union", "AddAll differs from Merge", rp())
+					}
+					for j := 1; j < k; j++ {
+						if !bytes.Equal(hs[j].GetBytes(), before[j]) {
+							fail("property", "merge:input-modified", fmt.Sprintf("AddAll changed its argument #%d", j), rp())
+							break
+						}
+					}
+				})
+			}
+			// idempotent in place: a.AddAll(a) returns and changes nothing (also twice, also after the
+			// counter was an argument, and for the merged counter); estimate unchanged
+			for _, who := range []string{"a part", "the merged counter"} {
+				items := parts[0]
+				if who != "a part" {
+					items = total
 				}
-			})
+				a, ok := sub(items)
+				if !ok {
+					continue
+				}
+				who := who
+				step("addall:self", "merge:panic", "a.AddAll(a) ("+who+")", rp, func() {
+					a.h.AddAll(a.h)
+					a.h.AddAll(a.h)
+					if !bytes.Equal(a.h.GetBytes(), a.bytes) {
+						fail("property", "merge:not-idempotent", "a.AddAll(a) changes a ("+who+")", rp())
+					}
+					if a.h.Cardinality() != a.card {
+						fail("property", "merge:not-idempotent", "a.AddAll(a) changes the estimate of a ("+who+")", rp())
+					}
+					if offer(a.h, item{true, 0x9e3779b97f4a7c15}) { // the counter keeps working
+						a.h.AddAll(a.h)
+					}
+				})
+			}
 		}
 		// no aliasing in either direction: r := h.Merge(), h.Merge(a), h.Merge(a, b, c); mutate the
 		// result → every input keeps its bytes; mutate an input → the result keeps its bytes
-		if o.OK() && len(total) <= 40000 {
+		if okM && len(total) <= 40000 {
 			for _, arity := range []int{0, 1, 3} {
 				if arity > k-1 {
 					arity = k - 1
 				}
 				ins := make([]*hll.HyperLogLog, arity+1)
+				okIns := true
 				for j := range ins {
-					ins[j] = build(p, parts[j]).h
+					b, ok := sub(parts[j])
+					if !ok {
+						okIns = false
+						break
+					}
+					ins[j] = b.h
+				}
+				if !okIns {
+					break
 				}
 				var res *hll.HyperLogLog
 				bad := ""
-				og := vh.Guard(func() {
+				og := step("merge:aliasing", "merge:panic", "Merge/offer history", rp, func() {
 					res = ins[0].Merge(ins[1:]...)
 					snap := make([][]byte, len(ins))
 					for j := range ins {
@@ -1056,9 +1268,7 @@ func checkCase(c *caseT, r *vh.Rng, add func(pending), fail func(kind, key, summ
 						}
 					}
 				})
-				if !og.OK() {
-					fail("property", "merge:panic", "Merge/offer history panicked: "+vh.Clip(og.Panic, 200), rp())
-				} else if bad != "" {
+				if og && bad != "" {
 					m := rp()
 					m["history"] = bad
 					m["merge_arguments"] = arity
@@ -1074,11 +1284,11 @@ func checkCase(c *caseT, r *vh.Rng, add func(pending), fail func(kind, key, summ
 		// the receiver among the arguments, the same counter twice); after each call EVERY element of
 		// the full slice must be the same pointer with the same bytes as before, each result must be the
 		// union, and finally the full slice is merged and compared with the union (and the model).
-		if o.OK() && len(total) <= 40000 {
+		if okM && !abandoned && len(total) <= 40000 {
 			containerHistories(c, r, parts, add, fail)
 		}
 		// model of the merge (only for moderate sizes: the single-counter line already ties the state)
-		if len(total) <= 70000 {
+		if okM && len(total) <= 70000 {
 			ls := make([]string, k)
 			for j := range parts {
 				ls[j] = hashList(parts[j])
@@ -1087,13 +1297,16 @@ func checkCase(c *caseT, r *vh.Rng, add func(pending), fail func(kind, key, summ
 				want: fmt.Sprintf("%s %d", vh.Hex(mb), mcard), c: c, what: "MRG", info: rp()})
 		}
 	}
+	if abandoned {
+		return
+	}
 
 	// serialize / rebuild
 	{
 		var rb []byte
 		var rcard uint64
 		var nilBuilt bool
-		o := vh.Guard(func() {
+		ok := step("rebuild", "rebuild:fails", "BuildHyperLogLog(GetBytes()), then GetBytes(), Cardinality() and re-offering the items", rpc, func() {
 			h2 := hll.BuildHyperLogLog(base.bytes)
 			if h2 == nil {
 				nilBuilt = true
@@ -1113,8 +1326,9 @@ func checkCase(c *caseT, r *vh.Rng, add func(pending), fail func(kind, key, summ
 			}
 		})
 		switch {
-		case !o.OK() || nilBuilt:
-			fail("property", "rebuild:fails", "BuildHyperLogLog(GetBytes()) failed: "+o.String(), replayOf(c, nil))
+		case !ok:
+		case nilBuilt:
+			fail("property", "rebuild:fails", "BuildHyperLogLog(GetBytes()) returned nil", replayOf(c, nil))
 		case !bytes.Equal(rb, base.bytes):
 			fail("property", "rebuild:bytes-differ", "BuildHyperLogLog(GetBytes()).GetBytes() differs", replayOf(c, nil))
 		case rcard != base.card:
@@ -1122,9 +1336,10 @@ func checkCase(c *caseT, r *vh.Rng, add func(pending), fail func(kind, key, summ
 		}
 		// the byte slice handed to BuildHyperLogLog is a container too: spare capacity beyond len and the
 		// bytes themselves stay as they were, also after the rebuilt counter is used
-		if len(c.items) <= 40000 {
+		if ok && len(c.items) <= 40000 {
 			bad := ""
-			og := vh.Guard(func() {
+			other, okO := sub(c.items)
+			og := okO && step("rebuild:container", "", "BuildHyperLogLog on a slice with spare capacity", rpc, func() {
 				n := len(base.bytes)
 				buf := make([]byte, n+96)
 				for i := range buf {
@@ -1142,21 +1357,22 @@ func checkCase(c *caseT, r *vh.Rng, add func(pending), fail func(kind, key, summ
 					return
 				}
 				bump(h2, p, r)
-				h2.AddAll(build(p, c.items).h)
+				h2.AddAll(other.h)
 				_ = h2.GetBytes()
 				if !bytes.Equal(buf, keep) {
 					bad = "using the rebuilt counter wrote into the byte slice it was built from (or around it)"
 				}
 			})
-			if og.OK() && bad != "" {
+			if og && bad != "" {
 				fail("property", "rebuild:container-modified", bad, replayOf(c, map[string]interface{}{"history": bad}))
 			}
 		}
 		// the rebuilt counter, the original and the byte slice are independent of each other
-		if len(c.items) <= 40000 {
+		if ok && len(c.items) <= 40000 {
 			bad := ""
-			og := vh.Guard(func() {
-				h1 := build(p, c.items).h
+			h1r, ok1 := sub(c.items)
+			og := ok1 && step("rebuild:aliasing", "rebuild:fails", "rebuild/offer history", rpc, func() {
+				h1 := h1r.h
 				b1 := h1.GetBytes()
 				keep := append([]byte(nil), b1...)
 				h2 := hll.BuildHyperLogLog(b1)
@@ -1180,13 +1396,11 @@ func checkCase(c *caseT, r *vh.Rng, add func(pending), fail func(kind, key, summ
 					bad = "overwriting the serialized bytes changed a counter"
 				}
 			})
-			if !og.OK() {
-				fail("property", "rebuild:fails", "rebuild/offer history panicked: "+vh.Clip(og.Panic, 200), replayOf(c, nil))
-			} else if bad != "" {
+			if og && bad != "" {
 				fail("property", "rebuild:aliases-original", bad, replayOf(c, map[string]interface{}{"history": bad}))
 			}
 		}
-		if len(c.items) <= 70000 {
+		if ok && !nilBuilt && len(c.items) <= 70000 {
 			add(pending{line: "BLD " + vh.Hex(base.bytes), want: fmt.Sprintf("ok %d %s %d", p, vh.Hex(rb), rcard), c: c, what: "BLD"})
 		}
 	}
@@ -1214,7 +1428,7 @@ func checkCase(c *caseT, r *vh.Rng, add func(pending), fail func(kind, key, summ
 		dh[hashes[i]] = struct{}{}
 	}
 	n := len(dh) // items with equal hash are one item to the counter (e.g. 32-bit x and 64-bit x)
-	if c.mode != "ranks" && c.mode != "ranks-updown" && c.mode != "extremes" && c.mode != "all-registers-rank1" {
+	if c.mode != "ranks" && c.mode != "ranks-updown" && c.mode != "extremes" && c.mode != "all-registers-rank1" && c.mode != "top-rank-all" {
 		if !withinBound(p, n, base.card) {
 			key := "estimate:outside-error-bound"
 			if base.card >= 1<<62 && zerosOf(base.bytes) == 0 {
@@ -1287,7 +1501,7 @@ func classify(rep *vh.Report, pe pending, got string) {
 				for _, it := range pe.c.items {
 					dh[hashOf(it)] = struct{}{}
 				}
-				chosen := strings.HasPrefix(pe.c.mode, "ranks") || pe.c.mode == "extremes" || pe.c.mode == "all-registers-rank1"
+				chosen := strings.HasPrefix(pe.c.mode, "ranks") || pe.c.mode == "extremes" || pe.c.mode == "all-registers-rank1" || pe.c.mode == "top-rank-all"
 				if !chosen && !withinBound(pe.c.p, len(dh), n) {
 					rep.Fail("property", "estimate:outside-error-bound", "Cardinality() differs from the model and is outside the error bound",
 						replayOf(pe.c, map[string]interface{}{"implementation": w[2], "model": g[2], "branch": g[3], "zeros": g[4], "regSum": g[5]}))
@@ -1364,7 +1578,14 @@ func registerSetSection(env *vh.Env, rep *vh.Report, rng *vh.Rng, add func(pendi
 	}
 	counts = append(counts, 5, 6, 7, 191, 192, 193, 197, 198, 383, 384, 390, 1152, 1157)
 	for _, c := range counts {
-		rs := hll.NewRegisterSet(c)
+		var rs *hll.RegisterSet
+		var bits, robits []uint32
+		if o := impl("rs:new", nil, func() { rs = hll.NewRegisterSet(c); bits = rs.Bits(); robits = rs.ReadOnlyBits() }); !o.OK() {
+			if !o.Skipped {
+				rep.Fail("property", "RegisterSet:size", "NewRegisterSet(count) "+o.String(), map[string]interface{}{"count": c})
+			}
+			continue
+		}
 		add(pending{line: fmt.Sprintf("SZ %d", c), want: fmt.Sprint(rs.Size), what: "SZ", key: "RegisterSet:size", info: c})
 		rep.Count("rs:size")
 		if len(rs.M) != rs.Size || rs.Count != c {
@@ -1372,6 +1593,10 @@ func registerSetSection(env *vh.Env, rep *vh.Report, rng *vh.Rng, add func(pendi
 		}
 		if 6*rs.Size < c && c&(c-1) == 0 { // the property's counters have 2^p registers
 			rep.Fail("property", "RegisterSet:size", "fewer than count registers allocated", map[string]interface{}{"count": c, "size": rs.Size})
+		}
+		// Bits() / ReadOnlyBits(): the words (what GetBytes serializes); whether they alias the set is not the property's business
+		if len(bits) != rs.Size || len(robits) != rs.Size {
+			rep.Fail("property", "RegisterSet:bits", "Bits()/ReadOnlyBits() are not the Size words of the set", map[string]interface{}{"count": c})
 		}
 	}
 	// op sequences
@@ -1386,7 +1611,7 @@ func registerSetSection(env *vh.Env, rep *vh.Report, rng *vh.Rng, add func(pendi
 		nops := 5 + rng.Intn(60)
 		var ops, res []string
 		okSeq := true
-		o := vh.Guard(func() {
+		o := impl("rs:ops", nil, func() {
 			for i := 0; i < nops; i++ {
 				pos := rng.Intn(count)
 				if rng.Chance(40) { // cluster in one word / neighbours
@@ -1435,7 +1660,14 @@ func registerSetSection(env *vh.Env, rep *vh.Report, rng *vh.Rng, add func(pendi
 					okSeq = false
 				}
 			}
+			// Bits() and ReadOnlyBits() are the words as they are now (the model: the word array)
+			if wordsHex(rs.Bits()) != wordsHex(rs.M) || wordsHex(rs.ReadOnlyBits()) != wordsHex(rs.M) {
+				okSeq = false
+			}
 		})
+		if o.Skipped {
+			continue
+		}
 		line := fmt.Sprintf("RS %d %s", count, strings.Join(ops, ";"))
 		if !o.OK() || !okSeq {
 			rep.Fail("property", "RegisterSet:get-set-update", "a register does not read back the value last stored / UpdateIfGreater is not max", map[string]interface{}{"line": line, "outcome": o.String()})
@@ -1464,7 +1696,7 @@ func registerSetSection(env *vh.Env, rep *vh.Report, rng *vh.Rng, add func(pendi
 		}
 		keepOther := append([]uint32(nil), other...)
 		bad := ""
-		o := vh.Guard(func() {
+		o := impl("rs:init", nil, func() {
 			rs := hll.NewRegisterSetInit(count, backing[:n:n+5])
 			for pos := 0; pos < count; pos++ {
 				rs.Set(uint32(pos), uint32(rng.Intn(32)))
@@ -1490,7 +1722,7 @@ func registerSetSection(env *vh.Env, rep *vh.Report, rng *vh.Rng, add func(pendi
 				}
 			}
 		})
-		if !o.OK() || bad != "" {
+		if !o.Skipped && (!o.OK() || bad != "") {
 			rep.Fail("property", "RegisterSet:writes-outside-its-words", bad+" "+o.String(), map[string]interface{}{"count": count, "words": n})
 		}
 		rep.Count("rs:spare-capacity")
@@ -1510,19 +1742,30 @@ func registerSetSection(env *vh.Env, rep *vh.Report, rng *vh.Rng, add func(pendi
 		if rng.Chance(10) {
 			a = uint32(rng.PickInt([]int{0, 0x3fffffff, 0x1f, 0x3e000000}))
 		}
-		ra := hll.NewRegisterSetInit(6, []uint32{a})
-		rb := hll.NewRegisterSetInit(6, []uint32{b})
-		ra.Merge(rb)
-		okm := rb.M[0] == b
-		for j := 0; j < 6; j++ {
-			x, y := (a>>(5*uint(j)))&31, (b>>(5*uint(j)))&31
-			mx := x
-			if y > mx {
-				mx = y
+		var ra, rb *hll.RegisterSet
+		okm := true
+		o := impl("rs:merge-word", nil, func() {
+			ra = hll.NewRegisterSetInit(6, []uint32{a})
+			rb = hll.NewRegisterSetInit(6, []uint32{b})
+			ra.Merge(rb)
+			okm = rb.M[0] == b
+			for j := 0; j < 6; j++ {
+				x, y := (a>>(5*uint(j)))&31, (b>>(5*uint(j)))&31
+				mx := x
+				if y > mx {
+					mx = y
+				}
+				if ra.Get(j) != mx {
+					okm = false
+				}
 			}
-			if ra.Get(j) != mx {
-				okm = false
-			}
+		})
+		if o.Skipped {
+			continue
+		}
+		if !o.OK() {
+			rep.Fail("property", "RegisterSet:merge", "word merge "+o.String(), map[string]interface{}{"a": a, "b": b})
+			continue
 		}
 		if !okm {
 			rep.Fail("property", "RegisterSet:merge", "word merge is not the register-wise maximum / modifies its argument", map[string]interface{}{"a": a, "b": b, "merged": ra.M[0]})
@@ -1577,6 +1820,9 @@ func sampleEstimates(env *vh.Env, rep *vh.Report, rng *vh.Rng, fail func(kind, k
 				}
 				var st stat
 				drawn, dups := 0, 0
+				stage := "offer"
+				cs := func() *caseT { return &caseT{p: p, items: items, mode: "sampled:" + fam} }
+				o := impl("sampled", func() map[string]interface{} { return replayOf(cs(), nil) }, func() {
 				for len(seen) < maxN {
 					it := gen(drawn)
 					drawn++
@@ -1589,11 +1835,13 @@ func sampleEstimates(env *vh.Env, rep *vh.Report, rng *vh.Rng, fail func(kind, k
 					}
 					seen[hv] = struct{}{}
 					items = append(items, it)
+					stage = "offer"
 					offer(h, it)
 					n := len(seen)
 					if n%every != 0 && n > 16 {
 						continue
 					}
+					stage = "Cardinality"
 					est := h.Cardinality()
 					st.samples++
 					if n*4 >= m {
@@ -1614,6 +1862,11 @@ func sampleEstimates(env *vh.Env, rep *vh.Report, rng *vh.Rng, fail func(kind, k
 							break
 						}
 					}
+				}
+				})
+				if !o.OK() && !o.Skipped {
+					// a panic (or a call that does not return) on a trajectory: localised by re-building
+					buildFailure(cs(), run{out: o, stage: stage}, fail)
 				}
 				mu.Lock()
 				s0 := &stats[p]
@@ -1677,7 +1930,7 @@ func d30Witness(rep *vh.Report, invOK bool, fail func(kind, key, summary string,
 		rep.Evaluations++
 		rep.Count("d30-witness")
 		if !b.out.OK() {
-			fail("property", "offer:panic", "panic on the D30 witness", replayOf(c, nil))
+			buildFailure(c, b, fail)
 			continue
 		}
 		if zerosOf(b.bytes) != 0 {
@@ -1708,10 +1961,16 @@ func linearSweep(env *vh.Env, rep *vh.Report, add func(pending), fail func(kind,
 			if !env.Thorough && p >= 13 {
 				step = m / 2048 // quick tier: 2048 values of V for the large precisions
 			}
-			h := hll.NewHyperLogLogInt(p)
 			n := 0
 			bad := 0
+			cur := 0
+			how := func() map[string]interface{} {
+				return map[string]interface{}{"p": p, "how": "offer one item of rank 1 to registers 0.." + fmt.Sprint(cur) + ", Cardinality() after each"}
+			}
+			ob := impl("linear-sweep", how, func() {
+			h := hll.NewHyperLogLogInt(p)
 			for reg := 0; reg < m-1; reg++ {
+				cur = reg
 				it := crafted(uint32(reg)<<w | 1<<(w-1))
 				offer(h, it)
 				V := m - 1 - reg
@@ -1719,7 +1978,7 @@ func linearSweep(env *vh.Env, rep *vh.Report, add func(pending), fail func(kind,
 					continue
 				}
 				var card uint64
-				o := vh.Guard(func() { card = h.Cardinality() })
+				o := vh.Guard(func() { card = h.Cardinality() }) // inside the guarded block: recover only
 				n++
 				want := uint64(math.Floor(float64(m)*math.Log(float64(m)/float64(V)) + 0.5))
 				if (!o.OK() || card != want) && bad < 3 {
@@ -1729,6 +1988,14 @@ func linearSweep(env *vh.Env, rep *vh.Report, add func(pending), fail func(kind,
 						map[string]interface{}{"p": p, "empty_registers": V, "implementation": card, "expected": want, "how": "offer one item of rank 1 to registers 0.." + fmt.Sprint(reg)})
 				}
 				add(pending{line: fmt.Sprintf("LIN %d %d", m, V), want: fmt.Sprint(card), what: "LIN", info: map[string]interface{}{"p": p, "V": V}})
+			}
+			})
+			if ob.Timeout {
+				m := how()
+				m["goroutine"] = ob.Where
+				fail("property", blocksKey(ob), "a call of the linear-counting sweep does not return", m)
+			} else if ob.Panic != "" {
+				fail("property", "offer:panic", "the linear-counting sweep panicked: "+vh.Clip(ob.Panic, 200), how())
 			}
 			mu.Lock()
 			total += n
@@ -1793,18 +2060,34 @@ func rangeItem(fam string, base, fixed uint64, i int) item {
 func rangeCheck(rep *vh.Report, p uint32, fam string, base, fixed uint64, n int, add func(pending), fail func(kind, key, summary string, replay interface{})) {
 	var b []byte
 	var card uint64
-	o := vh.Guard(func() {
+	replay := map[string]interface{}{"p": p, "range_family": fam, "range_base": base, "range_fixed": fixed, "range_n": n,
+		"how": fmt.Sprintf("offer the %d distinct items rangeItem(%q, base, fixed, i), i = 0..n-1, to a counter of precision %d", n, fam, p)}
+	stage := "offer"
+	o := impl("range", func() map[string]interface{} { return replay }, func() {
 		h := hll.NewHyperLogLogInt(p)
 		for i := 0; i < n; i++ {
 			offer(h, rangeItem(fam, base, fixed, i))
 		}
+		stage = "GetBytes"
 		b = h.GetBytes()
+		stage = "Cardinality"
 		card = h.Cardinality()
 	})
-	replay := map[string]interface{}{"p": p, "range_family": fam, "range_base": base, "range_fixed": fixed, "range_n": n,
-		"how": fmt.Sprintf("offer the %d distinct items rangeItem(%q, base, fixed, i), i = 0..n-1, to a counter of precision %d", n, fam, p)}
+	if o.Skipped {
+		return
+	}
+	if o.Timeout {
+		replay["goroutine"] = o.Where
+		fail("property", blocksKey(o), "a call on a counter that saw a range of items does not return ("+stage+")", replay)
+		return
+	}
 	if !o.OK() {
-		fail("property", "offer:panic", "offering a range of items panicked: "+vh.Clip(o.Panic, 200), replay)
+		replay["step"] = stage
+		key := "offer:panic"
+		if stage != "offer" {
+			key = stage + ":panic"
+		}
+		fail("property", key, stage+" on a range of items panicked: "+vh.Clip(o.Panic, 200), replay)
 		return
 	}
 	replay["implementation"] = card
@@ -1822,14 +2105,28 @@ func stateCheck(rep *vh.Report, p uint32, b []byte, n int, add func(pending), fa
 	} else {
 		replay = map[string]interface{}{"p": p, "register_state": vh.Hex(b), "how": "BuildHyperLogLog(register_state).Cardinality()"}
 		nilBuilt := false
-		o := vh.Guard(func() {
+		stage := "BuildHyperLogLog"
+		o := impl("state", func() map[string]interface{} { return replay }, func() {
 			h := hll.BuildHyperLogLog(b)
 			if h == nil {
 				nilBuilt = true
 				return
 			}
+			stage = "Cardinality"
 			card = h.Cardinality()
 		})
+		if o.Skipped {
+			return
+		}
+		if o.Timeout {
+			replay["goroutine"] = o.Where
+			fail("property", blocksKey(o), stage+" of a well-formed register state does not return", replay)
+			return
+		}
+		if !o.OK() && stage == "Cardinality" {
+			fail("property", "Cardinality:panic", "Cardinality() of a counter rebuilt from a well-formed (reachable) register state panicked: "+vh.Clip(o.Panic, 200), replay)
+			return
+		}
 		if !o.OK() || nilBuilt {
 			fail("property", "rebuild:fails", "BuildHyperLogLog of a well-formed register state failed", replay)
 			return
@@ -1881,6 +2178,7 @@ func largeCardinalities(env *vh.Env, rep *vh.Report, rng *vh.Rng, add func(pendi
 		base, fix  uint64
 		n          int
 		state      []byte
+		valueRange bool
 	}
 	var jobs []job
 	k := 0
@@ -1917,6 +2215,26 @@ func largeCardinalities(env *vh.Env, rep *vh.Report, rng *vh.Rng, add func(pendi
 			}
 			jobs = append(jobs, job{p: p, state: packRegs(p, regs)})
 		}
+		// the whole range of register values 0..33-p (every such assignment is reachable): uniformly
+		// random values, every value in turn, every register at the top value, one register at the top
+		top := uint32(33 - p)
+		for kind := 0; kind < 4; kind++ {
+			regs := make([]uint32, m)
+			for i := range regs {
+				switch kind {
+				case 0:
+					regs[i] = uint32(rng.Intn(int(top) + 1))
+				case 1:
+					regs[i] = uint32(i) % (top + 1)
+				case 2:
+					regs[i] = top
+				}
+			}
+			if kind == 3 {
+				regs[rng.Intn(m)] = top
+			}
+			jobs = append(jobs, job{p: p, state: packRegs(p, regs), valueRange: true})
+		}
 	}
 	var wg sync.WaitGroup
 	sem := make(chan struct{}, 16)
@@ -1935,7 +2253,10 @@ func largeCardinalities(env *vh.Env, rep *vh.Report, rng *vh.Rng, add func(pendi
 	}
 	wg.Wait()
 	for _, j := range jobs {
-		if j.state != nil {
+		if j.valueRange {
+			rep.Count("state:register-values-over-the-whole-range-0..33-p")
+			rep.Case(fmt.Sprintf("state p=%d %s", j.p, fnvBytes(j.state)), true)
+		} else if j.state != nil {
 			rep.Count("large:synthetic-state")
 			rep.Case(fmt.Sprintf("state p=%d %s", j.p, fnvBytes(j.state)), true)
 		} else {
@@ -1957,6 +2278,8 @@ func fnvBytes(b []byte) string {
 // ---------------------------------------------------------------- containers of inputs
 
 // containerHistories: the slice that carries the arguments of the variadic Merge is an input too.
+const abortMark = "c14-abort: a build inside the block failed"
+
 func containerHistories(c *caseT, r *vh.Rng, parts [][]item, add func(pending), fail func(kind, key, summary string, replay interface{})) {
 	p := c.p
 	// the element item lists: the parts plus two small extra counters, so that there are ≥ 4 elements
@@ -2009,12 +2332,19 @@ func containerHistories(c *caseT, r *vh.Rng, parts [][]item, add func(pending), 
 		var extra map[string]interface{}
 		var finalBytes []byte
 		var finalCard uint64
-		og := vh.Guard(func() {
-			recv := build(p, recvItems).h
+		mk := func(items []item) *hll.HyperLogLog { // a build that fails was reported by the case already
+			b := build(p, items)
+			if !b.out.OK() {
+				panic(abortMark)
+			}
+			return b.h
+		}
+		og := impl("container:"+v.name, func() map[string]interface{} { return rpl(map[string]interface{}{"variant": v.name}) }, func() {
+			recv := mk(recvItems)
 			lists := append([][]item(nil), elems...)
 			backing := make([]*hll.HyperLogLog, n, n+v.spare)
 			for j := range backing {
-				backing[j] = build(p, lists[j]).h
+				backing[j] = mk(lists[j])
 			}
 			if v.recvIn >= 0 {
 				backing[v.recvIn] = recv
@@ -2028,7 +2358,7 @@ func containerHistories(c *caseT, r *vh.Rng, parts [][]item, add func(pending), 
 			full := backing[:cap(backing)]
 			sentinels := make([]*hll.HyperLogLog, 0)
 			for j := n; j < len(full); j++ {
-				full[j] = build(p, []item{{true, r.U64()}}).h
+				full[j] = mk([]item{{true, r.U64()}})
 				sentinels = append(sentinels, full[j])
 			}
 			ptr := append([]*hll.HyperLogLog(nil), full...)
@@ -2132,6 +2462,13 @@ func containerHistories(c *caseT, r *vh.Rng, parts [][]item, add func(pending), 
 				}
 			}
 		})
+		if og.Skipped || og.Panic == abortMark {
+			continue
+		}
+		if og.Timeout {
+			fail("property", blocksKey(og), "a Merge over a sub-slice history does not return ("+v.name+")", rpl(map[string]interface{}{"variant": v.name, "goroutine": og.Where}))
+			return
+		}
 		if !og.OK() {
 			fail("property", "merge:panic", "Merge over a sub-slice history panicked ("+v.name+"): "+vh.Clip(og.Panic, 200), rpl(map[string]interface{}{"variant": v.name}))
 		} else if bad != "" {
@@ -2146,11 +2483,90 @@ func containerHistories(c *caseT, r *vh.Rng, parts [][]item, add func(pending), 
 
 // ---------------------------------------------------------------- histories over several counters
 
+// opShape: the class of an operation of a history as far as blocking is concerned (which counters
+// coincide), e.g. "a:self" for x.AddAll(x), "m:self" for x.Merge(…, x, …).
+func opShape(f []string) string {
+	switch f[0] {
+	case "a":
+		if len(f) >= 3 && f[1] == f[2] {
+			return "a:self"
+		}
+		return "a"
+	case "m":
+		if len(f) < 3 || f[2] == "-" {
+			return "m:none"
+		}
+		js := strings.Split(f[2], ",")
+		seen := map[string]bool{}
+		sh := "m"
+		for _, j := range js {
+			if j == f[1] {
+				sh = "m:self"
+			}
+			if seen[j] && sh == "m" {
+				sh = "m:dup"
+			}
+			seen[j] = true
+		}
+		return sh
+	}
+	return f[0]
+}
+
+// minimalFor: the smallest history with the operation op on fresh counters of the same precisions and
+// the same coincidences between its counters.
+func minimalFor(f []string, prec []uint32) []string {
+	atoi := func(x string) int { v, _ := strconv.Atoi(x); return v }
+	var ops []string
+	idx := map[int]int{}
+	use := func(i int) int {
+		if k, ok := idx[i]; ok {
+			return k
+		}
+		if i < 0 || i >= len(prec) {
+			return -1
+		}
+		k := len(idx)
+		idx[i] = k
+		ops = append(ops, fmt.Sprintf("n:%d", prec[i]))
+		return k
+	}
+	switch f[0] {
+	case "o":
+		return append(ops, fmt.Sprintf("o:%d:%s:%s", use(atoi(f[1])), f[2], f[3]))
+	case "a":
+		i := use(atoi(f[1]))
+		j := use(atoi(f[2]))
+		return append(ops, fmt.Sprintf("a:%d:%d", i, j))
+	case "m":
+		i := use(atoi(f[1]))
+		arg := "-"
+		if f[2] != "-" {
+			var js []string
+			for _, x := range strings.Split(f[2], ",") {
+				js = append(js, strconv.Itoa(use(atoi(x))))
+			}
+			arg = strings.Join(js, ",")
+		}
+		return append(ops, fmt.Sprintf("m:%d:%s", i, arg))
+	case "b", "g":
+		return append(ops, fmt.Sprintf("%s:%d", f[0], use(atoi(f[1]))))
+	}
+	return []string{strings.Join(f, ":")}
+}
+
 // runHistory executes ops (item form: n:P, o:I:<item>, a:I:J, m:I:J1,J2|-, b:I, g:I) on real counters.
 // After every operation: only the receiver of o/a may have changed (frame), a panicking operation
 // changes nothing and creates nothing, and every counter is the counter of the items that reached it
 // (independent evaluation).  At the end the whole world is compared with the model.
-func runHistory(rep *vh.Report, ops []string, add func(pending), fail func(kind, key, summary string, replay interface{})) {
+// Every operation runs under the watchdog (label = its shape).  An operation that does not return is
+// established once: it is re-run alone on fresh counters (minimal history, reported as the replay if it
+// blocks again, else the whole prefix is the replay); later histories stop when they meet that shape.
+func runHistory(rep *vh.Report, ops []string, add func(pending), fail failFn) {
+	runHistoryL(rep, ops, add, fail, "hist:")
+}
+
+func runHistoryL(rep *vh.Report, ops []string, add func(pending), fail failFn, prefix string) (hung bool) {
 	var objs []*hll.HyperLogLog
 	var prec []uint32
 	var ghost [][]uint32 // hashes that reached each counter
@@ -2158,16 +2574,30 @@ func runHistory(rep *vh.Report, ops []string, add func(pending), fail func(kind,
 	replay := func(at int, extra string) map[string]interface{} {
 		return map[string]interface{}{"history_ops": ops[:at+1], "at": at, "what": extra}
 	}
-	snapshot := func() [][]byte {
+	// snapshot: GetBytes() of every counter, under the watchdog
+	snapshot := func(at int) ([][]byte, bool) {
 		out := make([][]byte, len(objs))
-		for i, o := range objs {
-			out[i] = o.GetBytes()
+		o := impl(prefix+"snapshot", func() map[string]interface{} { return replay(at, "GetBytes() of every counter") }, func() {
+			for i, ob := range objs {
+				out[i] = ob.GetBytes()
+			}
+		})
+		if o.Timeout {
+			m := replay(at, "GetBytes() of a counter of the history does not return")
+			m["goroutine"] = o.Where
+			fail("property", blocksKey(o), "after this history GetBytes() of a counter does not return", m)
+			hung = true
+		} else if o.Panic != "" {
+			fail("property", "history:panic", "GetBytes() of a counter of the history panicked: "+vh.Clip(o.Panic, 160), replay(at, "panic in GetBytes"))
 		}
-		return out
+		return out, o.OK()
 	}
 	for at, op := range ops {
 		f := strings.Split(op, ":")
-		before := snapshot()
+		before, ok := snapshot(at)
+		if !ok {
+			return
+		}
 		nBefore := len(objs)
 		target := -1
 		var created *hll.HyperLogLog
@@ -2175,7 +2605,12 @@ func runHistory(rep *vh.Report, ops []string, add func(pending), fail func(kind,
 		var createdPrec uint32
 		expectPanic := false
 		atoi := func(x string) int { v, _ := strconv.Atoi(x); return v }
-		o := vh.Guard(func() {
+		label := prefix + opShape(f)
+		if labelHung(label) {
+			rep.Count("history:stopped-at-an-operation-known-to-block")
+			break
+		}
+		o := impl(label, func() map[string]interface{} { return replay(at, "operation "+op) }, func() {
 			switch f[0] {
 			case "n":
 				createdPrec = uint32(atoi(f[1]))
@@ -2222,6 +2657,22 @@ func runHistory(rep *vh.Report, ops []string, add func(pending), fail func(kind,
 				_ = objs[atoi(f[1])].GetBytes()
 			}
 		})
+		if o.Skipped {
+			break
+		}
+		if o.Timeout {
+			// established: the operation does not return.  Alone on fresh counters?
+			hung = true
+			if prefix == "hist:" {
+				if min := minimalFor(f, prec); runHistoryL(rep, min, func(pending) {}, fail, "hist-min:") {
+					return // reported with the minimal history as replay
+				}
+			}
+			m := replay(at, "operation "+op+" does not return")
+			m["goroutine"] = o.Where
+			fail("property", blocksKey(o), "operation "+op+" of a history over several counters does not return", m)
+			return
+		}
 		if !o.OK() {
 			created = nil
 			if !expectPanic {
@@ -2233,11 +2684,15 @@ func runHistory(rep *vh.Report, ops []string, add func(pending), fail func(kind,
 			return
 		}
 		// frame
+		after, ok := snapshot(at)
+		if !ok {
+			return
+		}
 		for k := 0; k < nBefore; k++ {
 			if k == target && o.OK() {
 				continue
 			}
-			if !bytes.Equal(objs[k].GetBytes(), before[k]) {
+			if !bytes.Equal(after[k], before[k]) {
 				what := fmt.Sprintf("operation %s changed counter #%d, which is not its receiver", op, k)
 				if !o.OK() {
 					what = fmt.Sprintf("the failing operation %s changed counter #%d", op, k)
@@ -2257,6 +2712,22 @@ func runHistory(rep *vh.Report, ops []string, add func(pending), fail func(kind,
 			objs = append(objs, created)
 			prec = append(prec, createdPrec)
 			ghost = append(ghost, createdGhost)
+			var cb []byte
+			if _, ok := func() ([]byte, bool) {
+				o := impl(prefix+"snapshot", func() map[string]interface{} { return replay(at, "GetBytes() of the new counter") }, func() { cb = created.GetBytes() })
+				if o.Timeout {
+					m := replay(at, "GetBytes() of the counter created by "+op+" does not return")
+					m["goroutine"] = o.Where
+					fail("property", blocksKey(o), "GetBytes() of the counter created by "+op+" does not return", m)
+					hung = true
+				} else if o.Panic != "" {
+					fail("property", "history:panic", "GetBytes() of the counter created by "+op+" panicked: "+vh.Clip(o.Panic, 160), replay(at, "panic in GetBytes"))
+				}
+				return cb, o.OK()
+			}(); !ok {
+				return
+			}
+			after = append(after, cb)
 		}
 		// every counter = the counter of what reached it
 		check := []int{}
@@ -2267,25 +2738,27 @@ func runHistory(rep *vh.Report, ops []string, add func(pending), fail func(kind,
 			check = append(check, len(objs)-1)
 		}
 		for _, k := range check {
-			if !bytes.Equal(objs[k].GetBytes(), packRegs(prec[k], specRegs(prec[k], ghost[k]))) {
+			if !bytes.Equal(after[k], packRegs(prec[k], specRegs(prec[k], ghost[k]))) {
 				what := fmt.Sprintf("after %s counter #%d is not the counter of the items that reached it", op, k)
 				fail("property", "history:state-is-not-the-fold", what, replay(at, what))
 				return
 			}
 		}
 	}
-	final := snapshot()
+	final, ok := snapshot(len(ops) - 1)
+	if !ok {
+		return
+	}
 	hx := make([]string, len(final))
 	for i, b := range final {
 		hx[i] = vh.Hex(b)
 	}
-	line := "HIST " + vh.List(mops)
-	line = strings.ReplaceAll(line, ",n:", ";n:") // vh.List joins with commas; ops are separated by ';'
-	line = "HIST " + strings.Join(mops, ";")
+	line := "HIST " + strings.Join(mops, ";")
 	if len(mops) == 0 {
 		line = "HIST -"
 	}
 	add(pending{line: line, want: vh.List(hx), what: "HIST", info: ops, c: &caseT{p: 4, mode: "history"}})
+	return
 }
 
 func historySection(env *vh.Env, rep *vh.Report, rng *vh.Rng, add func(pending), fail func(kind, key, summary string, replay interface{})) {
@@ -2390,7 +2863,13 @@ func hashSection(env *vh.Env, rep *vh.Report, rng *vh.Rng, add func(pending), fa
 			if !it.wide {
 				// the 32-bit entry point
 				o := uint32(it.v)
-				lib := hll.MurmurHash(o)
+				var lib uint32
+				if g := impl("hash32", nil, func() { lib = hll.MurmurHash(o) }); !g.OK() {
+					if !g.Skipped {
+						fail("property", "hash:panic-or-blocks", "MurmurHash("+fmt.Sprint(o)+") "+g.String(), map[string]interface{}{"p": 4, "items": []string{it.String()}})
+					}
+					continue
+				}
 				if lib != refHashLong(uint64(o)) {
 					fail("property", "hash:differs-from-MurmurHash2", fmt.Sprintf("MurmurHash(%d) = %d, MurmurHash2 of the zero-extended item = %d", o, lib, refHashLong(uint64(o))),
 						map[string]interface{}{"p": 4, "items": []string{it.String()}})
@@ -2402,7 +2881,13 @@ func hashSection(env *vh.Env, rep *vh.Report, rng *vh.Rng, add func(pending), fa
 		}
 	}
 	for _, v := range vals {
-		lib := hll.MurmurHashLong(v)
+		var lib uint32
+		if g := impl("hash64", nil, func() { lib = hll.MurmurHashLong(v) }); !g.OK() {
+			if !g.Skipped {
+				fail("property", "hash:panic-or-blocks", "MurmurHashLong("+fmt.Sprint(v)+") "+g.String(), map[string]interface{}{"p": 4, "items": []string{item{true, v}.String()}})
+			}
+			continue
+		}
 		if lib != refHashLong(v) {
 			fail("property", "hash:differs-from-MurmurHash2", fmt.Sprintf("MurmurHashLong(%d) = %d, MurmurHash2 (low word, then high word) = %d", v, lib, refHashLong(v)),
 				map[string]interface{}{"p": 4, "items": []string{item{true, v}.String()}})
@@ -2411,4 +2896,116 @@ func hashSection(env *vh.Env, rep *vh.Report, rng *vh.Rng, add func(pending), fa
 	}
 	rep.CountN("hash:vs-model-and-reference", n+15)
 	rep.Evaluations += n + 15
+}
+
+// ---------------------------------------------------------------- the rest of the exported API
+
+// apiSection exercises the exported functions no other stage calls directly: the constructors
+// NewHyperLogLog / NewHyperLogLogDefault / NewHyperLogLogFloat, Sizeof and Round.
+func apiSection(env *vh.Env, rep *vh.Report, rng *vh.Rng, add func(pending), fail failFn) {
+	bad := func(key, what string, replay map[string]interface{}) { fail("property", key, what, replay) }
+	// NewHyperLogLog(p, NewRegisterSet(2^p)) is NewHyperLogLogInt(p); precisions above 30 are refused (nil)
+	for p := uint32(4); p <= 16; p++ {
+		var items []item
+		g := newFamily(familyNames[rng.Intn(len(familyNames))], rng)
+		for i := 0; i < 1+rng.Intn(200); i++ {
+			items = append(items, g(i))
+		}
+		ref := build(p, items)
+		if !ref.out.OK() {
+			continue
+		}
+		var b []byte
+		var card uint64
+		var size int
+		o := impl("api:new", itemsReplay(p, items), func() {
+			h := hll.NewHyperLogLog(p, hll.NewRegisterSet(1<<p))
+			for _, it := range items {
+				offer(h, it)
+			}
+			b, card, size = h.GetBytes(), h.Cardinality(), h.Sizeof()
+		})
+		rp := itemsReplay(p, items)()
+		if o.Timeout {
+			rp["goroutine"] = o.Where
+			bad(blocksKey(o), "a call on a counter made by NewHyperLogLog(p, NewRegisterSet(2^p)) does not return", rp)
+		} else if o.Panic != "" {
+			bad("offer:panic", "a counter made by NewHyperLogLog(p, NewRegisterSet(2^p)) panicked: "+vh.Clip(o.Panic, 160), rp)
+		} else if o.OK() {
+			if !bytes.Equal(b, ref.bytes) || card != ref.card {
+				bad("constructor:NewHyperLogLog-differs-from-NewHyperLogLogInt", "NewHyperLogLog(p, NewRegisterSet(2^p)) and NewHyperLogLogInt(p) differ after the same offers", rp)
+			}
+			// Sizeof() = 4 bytes per word = what GetBytes() carries after its two header ints
+			if size != 4*specWordCount(p) || size != len(b)-8 {
+				bad("Sizeof:not-four-bytes-per-word", fmt.Sprintf("Sizeof() = %d at precision %d, the register words take %d bytes", size, p, 4*specWordCount(p)), rp)
+			}
+			add(pending{line: fmt.Sprintf("SZ %d", 1<<p), want: fmt.Sprint(size / 4), what: "SZ", key: "Sizeof:not-four-bytes-per-word", info: p})
+		}
+		rep.Count("api:NewHyperLogLog+Sizeof")
+		rep.Evaluations++
+	}
+	for _, p := range []uint32{31, 32, 33, 64, 1 << 31, 0xffffffff} {
+		var h *hll.HyperLogLog
+		o := impl("api:new-invalid", nil, func() { h = hll.NewHyperLogLog(p, hll.NewRegisterSet(16)) })
+		if o.OK() && h != nil {
+			bad("constructor:invalid-precision-accepted", fmt.Sprintf("NewHyperLogLog(%d, …) returned a counter (precisions above 30 are refused)", p), map[string]interface{}{"log2m": p})
+		}
+		rep.Count("api:NewHyperLogLog-invalid-precision")
+		rep.Evaluations++
+	}
+	// NewHyperLogLogDefault() is an empty counter of precision 10
+	{
+		var b []byte
+		var card uint64
+		o := impl("api:default", nil, func() { h := hll.NewHyperLogLogDefault(); b, card = h.GetBytes(), h.Cardinality() })
+		if !o.Skipped && (!o.OK() || !bytes.Equal(b, packRegs(10, make([]uint32, 1024))) || card != 0) {
+			bad("constructor:default-is-not-an-empty-counter-of-precision-10", "NewHyperLogLogDefault() "+o.String(), map[string]interface{}{"bytes": vh.Clip(vh.Hex(b), 80), "cardinality": card})
+		}
+		rep.Count("api:NewHyperLogLogDefault")
+		rep.Evaluations++
+	}
+	// NewHyperLogLogFloat(rsd): an empty counter whose standard error 1.04/sqrt(m) is the requested one
+	// up to the granularity of powers of two (within a factor 2; which neighbour is chosen is the code's business)
+	for i := 0; i < 40; i++ {
+		p := 4 + rng.Intn(13)
+		rsd := 1.04 / math.Sqrt(math.Exp2(float64(p)+float64(rng.Intn(1000))/1000))
+		var b []byte
+		var card uint64
+		o := impl("api:float", nil, func() { h := hll.NewHyperLogLogFloat(rsd); b, card = h.GetBytes(), h.Cardinality() })
+		if o.Skipped {
+			continue
+		}
+		q, regs, okb := unpackRegs(b)
+		good := o.OK() && okb && card == 0 && zerosOf(b) == len(regs)
+		if good {
+			se := 1.04 / math.Sqrt(float64(uint64(1)<<q))
+			good = se <= 2*rsd && rsd <= 2*se
+		}
+		if !good {
+			bad("constructor:precision-for-rsd", fmt.Sprintf("NewHyperLogLogFloat(%g) is not an empty counter with standard error 1.04/sqrt(m) within a factor 2 of the request", rsd), map[string]interface{}{"rsd": rsd, "bytes": vh.Clip(vh.Hex(b), 40), "outcome": o.String()})
+		}
+		rep.Count("api:NewHyperLogLogFloat")
+		rep.Evaluations++
+	}
+	// Round: half away from zero on the values Cardinality passes (and their negatives)
+	for i := 0; i < 400; i++ {
+		x := float64(rng.Intn(1<<30)) + float64(rng.Intn(4))/4
+		if i%5 == 0 {
+			x = float64(rng.Intn(1 << 20)) * (1 + float64(rng.Intn(1<<20))/(1<<20))
+		}
+		if i%2 == 1 {
+			x = -x
+		}
+		want := int64(math.Floor(math.Abs(x) + 0.5))
+		if x < 0 {
+			want = -want
+		}
+		var got int64
+		o := impl("api:round", nil, func() { got = hll.Round(x) })
+		if !o.Skipped && (!o.OK() || got != want) {
+			bad("Round:not-half-away-from-zero", fmt.Sprintf("Round(%v) = %d, expected %d", x, got, want), map[string]interface{}{"x": x, "implementation": got})
+		}
+		rep.Count("api:Round")
+		rep.Evaluations++
+	}
 }
